@@ -189,6 +189,9 @@ NO_MODULE_INTERVAL = 310536000
 MAX_INTERVAL = 9223372036          # largest interval with interval * 10^9 < 2^63 (time.Duration)
 LARGE_INTERVAL = 7000000000        # large, and T0 + interval * 10^9 still a valid UnixNano clock value
 I64_MAX = 2**63 - 1
+# beyond MAX_INTERVAL the int64 products of the code wrap: -Duration(interval)*Second (first: 9223372037; twice:
+# 18446744074 = an effective 0.29 s), interval*1000 (positive up to 9223372036854775, negative from ...776 on)
+WRAP_INTERVALS = [9223372037, 9223372038, 10000000000, 18446744074, 9223372036854775, 9223372036854776, 2**63 - 2]
 
 
 def _tokval(tok):
@@ -199,7 +202,7 @@ def _tokval(tok):
 
 def parse_cfg(case):
     """cfg <src> <root> <slow> <nm> {id class iv sv th}* <now0> <ng> {g le}* <nev> events
-    events: k <now> | t <now> | e | x | r <now> <n> {g draw}* | rs <now> <c|g> <n> {g draw}* | ue <now> | a <mode>"""
+    events: k <now> | t <now> | e | x | r <now> <n> {g draw}* | rs <now> <c|g> <n> {g draw}* | ue <now> | a <mode> | af <mode> | rp <now> <n> {g draw}*"""
     f = case.split()
     assert f[0] == "cfg"
     c = {"src": f[1], "root": f[2], "slow": f[3] == "1", "mods": [], "groups": [], "events": []}
@@ -224,12 +227,12 @@ def parse_cfg(case):
             c["events"].append(("rs", int(f[i + 1]), f[i + 2], lst)); i += 4 + 2 * n
         elif k in ("e", "x"):
             c["events"].append((k,)); i += 1
-        elif k == "a":
-            c["events"].append(("a", f[i + 1])); i += 2
-        elif k == "r":
+        elif k in ("a", "af"):
+            c["events"].append((k, f[i + 1])); i += 2
+        elif k in ("r", "rp"):
             n = int(f[i + 2])
             lst = [(f[i + 3 + 2 * j], int(f[i + 4 + 2 * j])) for j in range(n)]
-            c["events"].append(("r", int(f[i + 1]), lst)); i += 3 + 2 * n
+            c["events"].append((k, int(f[i + 1]), lst)); i += 3 + 2 * n
         else:
             raise ValueError("bad cfg event " + k)
     return c
@@ -256,10 +259,10 @@ def cfg_line(src, root, slow, mods, now0, groups, events):
             toks += [e[0], str(e[1])]
         elif e[0] == "rs":
             toks += ["rs", str(e[1]), e[2], str(len(e[3]))] + ["%s %d" % (g, d) for g, d in e[3]]
-        elif e[0] == "a":
-            toks += ["a", e[1]]
-        elif e[0] == "r":
-            toks += ["r", str(e[1]), str(len(e[2]))] + ["%s %d" % (g, d) for g, d in e[2]]
+        elif e[0] in ("a", "af"):
+            toks += [e[0], e[1]]
+        elif e[0] in ("r", "rp"):
+            toks += [e[0], str(e[1]), str(len(e[2]))] + ["%s %d" % (g, d) for g, d in e[2]]
         else:
             toks.append(e[0])
     return " ".join(toks)
@@ -302,8 +305,10 @@ def gen_mods(rng):
             iv = None
         elif r < 0.72:
             iv = min(MAX_INTERVAL, max(0, base + rng.choice([-1, 0, 0, 1, 2, 7])))
-        elif r < 0.97:
+        elif r < 0.94:
             iv = rng.choice([0, 1, 5, 30, 59, 60, 61, 120, 300, 3600, 86400, LARGE_INTERVAL, MAX_INTERVAL])
+        elif r < 0.97:
+            iv = rng.choice(WRAP_INTERVALS)
         else:
             iv = -rng.choice([1, 5, 60])
         r = rng.random()
@@ -706,4 +711,62 @@ FIXED_R3 = [
     cfg_line("toml", "/burrow", False, [_m(1, "null", 30, 5, None), _m(2, "null", 60, 1, None)], T0, [(1, T0 - 31 * NS), (4, T0 - 31 * NS)],
              [("k", T0), ("t", T0 + 30 * NS + 1), ("x",), ("k", T0 + 30 * NS + 1 + 2 * MS), ("t", T0 + 30 * NS + 1 + 3 * MS),
               ("t", T0 + 60 * NS), ("t", T0 + 60 * NS + 2)]),
+]
+
+
+# ---- round 4 (audit D): beyond the bound of the pacing theorems; the Int63n panic; a late reply ----------------------
+
+def gen_cfg_wrap(rng, idx):
+    """Every module's interval is beyond 9223372036 s: -time.Duration(interval) * time.Second wraps.  The configured loop
+    is run all the same (lock, ticks 1 ms .. 1 s apart, expiry, re-lock): the model wraps as Go does and must agree with
+    the code; the property's oracle does not apply (C15_pacing_wrap_refuted)."""
+    nm = rng.randrange(1, 3)
+    ids = rng.sample(range(1, 10), nm)
+    mods = []
+    for k in range(nm):
+        iv = rng.choice(WRAP_INTERVALS)
+        mods.append({"id": ids[k], "class": "null", "iv": iv, "sv": rng.choice([None, 5, 60]), "th": None,
+                     "toks": [rng.choice(["%d", "L%d"]) % iv, "-", "-"]})
+        mods[-1]["toks"][1] = "-" if mods[-1]["sv"] is None else str(mods[-1]["sv"])
+    now = T0 + rng.randrange(0, 10**6) * MS
+    gids = sorted(rng.sample(range(1, 10), rng.randrange(1, 4)))
+    groups = [(g, now - rng.choice([1, MS, NS, 3600 * NS])) for g in gids]
+    evs = [("k", now)]
+    t = now
+    for _ in range(rng.randrange(2, 6)):
+        r = rng.random()
+        if r < 0.15 and evs[-1][0] != "x":
+            evs.append(("x",)); t += rng.choice([MS, NS]); evs.append(("k", t))
+        else:
+            t += rng.choice([MS, 2 * MS, 100 * MS, 290448384, 290448385, NS])
+            evs.append(("t", t))
+    tags = ["duration-wrap"] + cfg_tags(mods)
+    return cfg_line(rng.choice(["set", "toml"]), "/burrow", False, mods, now, groups, evs), sorted(set(tags))
+
+
+def duration_wraps(mods):
+    exp = shortest_configured(mods)
+    return exp is not None and exp > MAX_INTERVAL
+
+
+FIXED_R4 = [
+    # C15_pacing_wrap_refuted: interval 9223372037, evaluated at T and 1 ms later
+    cfg_line("set", "/burrow", False, [_m(1, "null", 9223372037, None, None)], T0, [(1, 0)],
+             [("k", T0), ("t", T0 + MS), ("t", T0 + 2 * MS)]),
+    # interval 18446744074 wraps twice: paced by 0.290448384 s
+    cfg_line("toml", "/burrow", False, [_m(1, "null", 18446744074, None, None)], T0, [(1, T0 - NS)],
+             [("k", T0), ("t", T0 + 290448384), ("t", T0 + 290448385), ("t", T0 + 290448386)]),
+    # rand.Int63n(minInterval*1000) panics: interval 0 / interval 9223372036854776, a refresh that lists a new group --
+    # through the real storage path, in a child process (rp), and in-process under recover (r)
+    cfg_line("set", "/burrow", False, [_m(1, "null", 0, None, None)], T0, [(1, T0 - 1)],
+             [("k", T0), ("rp", T0, [(1, 0), (2, 0)]), ("t", T0 + 1)]),
+    cfg_line("toml", "/burrow", False, [_m(1, "null", 9223372036854776, None, None)], T0, [(1, T0 - 1)],
+             [("k", T0), ("rp", T0, [(1, 0), (5, 0)]), ("t", T0 + 1)]),
+    cfg_line("set", "/burrow", False, [_m(1, "null", 9223372036854776, None, None), _m(2, "null", 2**63 - 2, None, None)], T0, [(1, T0 - 1)],
+             [("k", T0), ("r", T0, [(1, 0)]), ("t", T0 + MS), ("r", T0 + MS, [(1, 0), (5, 0)])]),
+    # C15_notifications_only_while_locked_refuted: the request of T is answered (ERR) after the expiry; a module is notified
+    cfg_line("set", "/burrow", False, [_m(1, "null", 30, None, 1)], T0, [(1, T0 - 31 * NS)],
+             [("a", "hold"), ("k", T0), ("x",), ("af", "err"), ("t", T0 + 31 * NS)]),
+    cfg_line("toml", "/burrow", False, [_m(3, "null", 5, 1, 2), _m(4, "null", None, None, 1)], T0, [(1, T0 - 6 * NS), (2, T0 - 6 * NS)],
+             [("a", "hold"), ("k", T0), ("t", T0 + 5 * NS + 1), ("x",), ("af", "stall"), ("k", T0 + 5 * NS + 2), ("af", "ok")]),
 ]
